@@ -1816,6 +1816,24 @@ impl Element {
                     });
                 }
             }
+
+            // check the compatibility of enum values in the character data of this element
+            if let Some(value_spec) = elemtype_new.chardata_spec() {
+                for content_item in &element.content {
+                    if let ElementContent::CharacterData(cdata) = content_item {
+                        let (is_compatible, mut value_version_mask) =
+                            cdata.check_version_compatibility(value_spec, target_version);
+                        if !is_compatible {
+                            value_version_mask &= !(target_version as u32);
+                            compat_errors.push(CompatibilityError::IncompatibleElement {
+                                element: self.clone(),
+                                version_mask: value_version_mask,
+                            });
+                        }
+                        overall_version_mask &= value_version_mask;
+                    }
+                }
+            }
         }
 
         // check the compatibility of all sub-elements
